@@ -19,19 +19,21 @@ import (
 
 // Spec describes a container to build.
 type Spec struct {
-	Kind     string     `json:"kind"`                // map | mapof | cache | cacheof
-	Key      string     `json:"keytype,omitempty"`   // for *of kinds: int | string | struct
-	Hasher   string     `json:"hasher,omitempty"`    // mapof only: "" default | const | samebucket | sameh2 | identity | lowbits
-	Presize  int        `json:"presize,omitempty"`   // map/mapof presize hint; cache MinCapacity
-	GrowOnly bool       `json:"grow_only,omitempty"` // map/mapof: xsync.WithGrowOnly() (internal option; never shrinks except on Clear)
-	Ctor     string     `json:"ctor,omitempty"`      // cache: "new" (options) | "default" (NewDefault)
-	DefExp   int64      `json:"defexp,omitempty"`    // cache default expiration handed to the constructor
-	HasDef   bool       `json:"hasdef,omitempty"`    // pass DefExp (otherwise library default)
-	CB       bool       `json:"cb,omitempty"`        // install evicted callback at construction
-	Reenter  uint8      `json:"reenter,omitempty"`   // callback re-entry: 0 none, 1 Get(k) (must not return the evicted value), 2 Count(), 3 both
-	ReOps    []model.Op `json:"re_ops,omitempty"`    // callback re-entry with arbitrary calls: the i-th callback invocation performs ReOps[i mod n] (nesting capped at 2)
-	Cleanup  int64      `json:"cleanup,omitempty"`   // cleanup interval handed to constructor (virtual clock: ticker never fires)
-	Native   bool       `json:"native,omitempty"`    // natively parallel use: no callback attribution (it is per virtual thread)
+	Kind     string      `json:"kind"`                       // map | mapof | cache | cacheof
+	Key      string      `json:"keytype,omitempty"`          // for *of kinds: int | string | struct
+	Hasher   string      `json:"hasher,omitempty"`           // mapof only: "" default | const | samebucket | sameh2 | identity | lowbits
+	Presize  int         `json:"presize,omitempty"`          // map/mapof presize hint; cache MinCapacity
+	GrowOnly bool        `json:"grow_only,omitempty"`        // map/mapof: xsync.WithGrowOnly() (internal option; never shrinks except on Clear)
+	Ctor     string      `json:"ctor,omitempty"`             // cache: "new" (options) | "default" (NewDefault)
+	DefExp   int64       `json:"defexp,omitempty"`           // cache default expiration handed to the constructor
+	HasDef   bool        `json:"hasdef,omitempty"`           // pass DefExp (otherwise library default)
+	CB       bool        `json:"cb,omitempty"`               // install evicted callback at construction
+	Reenter  uint8       `json:"reenter,omitempty"`          // callback re-entry: 0 none, 1 Get(k) (must not return the evicted value), 2 Count(), 3 both
+	Shadow   []ShadowOpt `json:"shadowed_options,omitempty"` // New/NewOf: options given EARLIER in the list and overridden by a later occurrence of the same option (last one wins)
+	OptPerm  uint8       `json:"option_order,omitempty"`     // New/NewOf: rotation of the (distinct) effective options
+	ReOps    []model.Op  `json:"re_ops,omitempty"`           // callback re-entry with arbitrary calls: the i-th callback invocation performs ReOps[i mod n] (nesting capped at 2)
+	Cleanup  int64       `json:"cleanup,omitempty"`          // cleanup interval handed to constructor (virtual clock: ticker never fires)
+	Native   bool        `json:"native,omitempty"`           // natively parallel use: no callback attribution (it is per virtual thread)
 	// Alias maps small key ids to other ids for string-keyed containers (id -> "k<alias>"): lets a
 	// generator make hot keys out of strings found by a search (top-hash collisions). Recomputed per process.
 	Alias map[int]int `json:"-"`
@@ -49,6 +51,9 @@ func (s Spec) String() string {
 	}
 	if s.GrowOnly {
 		x += " growOnly"
+	}
+	for _, sh := range s.Shadow {
+		x += fmt.Sprintf(" [earlier option %s=%d, overridden]", sh.Name, sh.D)
 	}
 	if s.Presize != 0 {
 		x += fmt.Sprintf(" presize=%d", s.Presize)
@@ -105,6 +110,12 @@ type API interface {
 }
 
 const maxThreads = 8
+
+// ShadowOpt is an option occurrence that a later one overrides. Name: defexp | cleanup | callback | mincap.
+type ShadowOpt struct {
+	Name string `json:"name"`
+	D    int64  `json:"d,omitempty"`
+}
 
 type sinkSet struct {
 	sinks [maxThreads + 1]*model.Res
@@ -686,7 +697,32 @@ func newCache(s Spec) API {
 		if s.Presize != 0 {
 			opts = append(opts, cache.WithMinCapacity(s.Presize))
 		}
-		a.c = cache.New(opts...)
+		if r := int(s.OptPerm) % len(opts); r > 0 {
+			opts = append(opts[r:len(opts):len(opts)], opts[:r]...)
+		}
+		// occurrences that a later one overrides go first; each is followed (somewhere later) by the effective one
+		var pre []cache.Option
+		for _, sh := range s.Shadow {
+			switch sh.Name {
+			case "defexp":
+				if s.HasDef {
+					pre = append(pre, cache.WithDefaultExpiration(time.Duration(sh.D)))
+				}
+			case "cleanup":
+				if sh.D <= 0 { // never start a second janitor's worth of trouble: shadowed intervals are non-positive
+					pre = append(pre, cache.WithCleanupInterval(time.Duration(sh.D)))
+				}
+			case "callback":
+				if s.CB {
+					pre = append(pre, cache.WithEvictedCallback(a.cb2))
+				}
+			case "mincap":
+				if s.Presize != 0 {
+					pre = append(pre, cache.WithMinCapacity(int(sh.D)))
+				}
+			}
+		}
+		a.c = cache.New(append(pre, opts...)...)
 	}
 	return a
 }
@@ -881,7 +917,31 @@ func newCacheOf[K comparable](s Spec, kc codec[K]) API {
 		if s.Presize != 0 {
 			opts = append(opts, cache.WithMinCapacityOf[K, int](s.Presize))
 		}
-		a.c = cache.NewOf[K, int](opts...)
+		if r := int(s.OptPerm) % len(opts); r > 0 {
+			opts = append(opts[r:len(opts):len(opts)], opts[:r]...)
+		}
+		var pre []cache.OptionOf[K, int]
+		for _, sh := range s.Shadow {
+			switch sh.Name {
+			case "defexp":
+				if s.HasDef {
+					pre = append(pre, cache.WithDefaultExpirationOf[K, int](time.Duration(sh.D)))
+				}
+			case "cleanup":
+				if sh.D <= 0 {
+					pre = append(pre, cache.WithCleanupIntervalOf[K, int](time.Duration(sh.D)))
+				}
+			case "callback":
+				if s.CB {
+					pre = append(pre, cache.WithEvictedCallbackOf[K, int](a.cb2))
+				}
+			case "mincap":
+				if s.Presize != 0 {
+					pre = append(pre, cache.WithMinCapacityOf[K, int](int(sh.D)))
+				}
+			}
+		}
+		a.c = cache.NewOf[K, int](append(pre, opts...)...)
 	}
 	return a
 }
